@@ -142,6 +142,20 @@ fn families(quick: bool) -> Vec<LmFamily> {
         offsets: vec![0.0],
         named: true,
     });
+    // named single-variable rows whose right-hand side coincides with a domain bound while the coefficient is not 1
+    v.push(LmFamily {
+        name: "F10-rows-that-look-like-bounds",
+        n: 2,
+        m: 1,
+        doms: vec![Dom::NonNegB(0.0, 4.0), Dom::Real(2.0, 10.0), Dom::Real(-4.0, 2.0)],
+        coefs: vec![-2.0, 0.0, 0.5, 1.0, 2.0],
+        rhss: vec![-4.0, 2.0, 4.0],
+        rels: vec![Rel::Le, Rel::Ge, Rel::Eq],
+        objs: vec![-1.0, 0.0, 3.0],
+        senses: vec![Sense::Min, Sense::Max],
+        offsets: vec![0.0],
+        named: true,
+    });
     // satisfy models that still carry objective coefficients and an offset: the reported value must be the
     // objective function at the returned point
     v.push(LmFamily {
